@@ -9,7 +9,7 @@ import (
 	"path/filepath"
 	"strconv"
 
-	_ "mossverif/checks"
+	"mossverif/checks"
 	"mossverif/run"
 )
 
@@ -113,6 +113,30 @@ func main() {
 			os.Exit(1)
 		}
 		fmt.Println("replay: no violation")
+	case "shrink":
+		b, err := os.ReadFile(os.Args[2])
+		if err != nil {
+			fmt.Println(err)
+			os.Exit(3)
+		}
+		var rp map[string]json.RawMessage
+		json.Unmarshal(b, &rp)
+		var prop, oracle, class string
+		json.Unmarshal(rp["property"], &prop)
+		json.Unmarshal(rp["oracle"], &oracle)
+		json.Unmarshal(rp["class"], &class)
+		o, ok := checks.SteeredOracles[prop]
+		if !ok {
+			fmt.Println("shrink supports steered properties only")
+			os.Exit(3)
+		}
+		sc, _ := os.MkdirTemp("/dev/shm", "mossverif-shrink")
+		nb := checks.ShrinkSteered(prop, rp["body"], oracle, class, sc, o)
+		os.RemoveAll(sc)
+		rp["body"] = nb
+		out, _ := json.MarshalIndent(rp, "", " ")
+		os.WriteFile(os.Args[2]+".min", out, 0o644)
+		fmt.Println("wrote", os.Args[2]+".min")
 	default:
 		fmt.Println("unknown command", os.Args[1])
 		os.Exit(3)
